@@ -33,6 +33,7 @@ type vfC23Doc struct {
 type vfC23Repo struct {
 	idx               int
 	name, marker      string
+	shared            bool // the name is also the name of a repository of another tenant in the same shard
 	id                uint32
 	tenant            int
 	tomb              bool
@@ -83,6 +84,24 @@ func vfC23GenRepos(r *vfRand, nrepos int, base int) []*vfC23Repo {
 		}
 		if r.Chance(8) {
 			rp.id = 0
+		}
+		// repository names are unique per tenant only: with some probability this repository gets the NAME of an
+		// earlier repository of another tenant (everything else — id, templates, source, metadata — stays its own)
+		if i > 0 && r.Chance(40) {
+			other := repos[r.Intn(len(repos))]
+			clash := other.tenant == tn
+			for _, x := range repos {
+				if x.name == other.name && x.tenant == tn {
+					clash = true
+				}
+			}
+			if !clash {
+				if !other.shared {
+					other.name = fmt.Sprintf("shared/app%d", other.idx)
+					other.shared = true
+				}
+				rp.name, rp.shared = other.name, true
+			}
 		}
 		if r.Chance(35) {
 			ns := 1 + r.Intn(2)
@@ -209,15 +228,15 @@ func vfC23NewScenario(t testing.TB, r *vfRand, tag string, base int) *vfC23Scena
 	gen := vfC23GenRepos(r, nrepos, base)
 	d := vfC23Build(t, gen, tag)
 	sc := &vfC23Scenario{d: d, ids: map[string]uint64{}, kind: fmt.Sprintf("repos=%d", nrepos)}
-	byName := map[string]*vfC23Repo{}
+	byName := map[string]*vfC23Repo{} // keyed by Source (unique); names may be shared between tenants
 	for _, rp := range gen {
-		byName[rp.name] = rp
+		byName["/src/"+rp.marker] = rp
 	}
 	if len(d.repoMetaData) != len(gen) {
 		t.Fatalf("shard has %d repos, generated %d", len(d.repoMetaData), len(gen))
 	}
 	for i := range d.repoMetaData {
-		rp := byName[d.repoMetaData[i].Name]
+		rp := byName[d.repoMetaData[i].Source]
 		if rp == nil {
 			t.Fatalf("unknown repo %q in shard", d.repoMetaData[i].Name)
 		}
@@ -228,6 +247,9 @@ func vfC23NewScenario(t testing.TB, r *vfRand, tag string, base int) *vfC23Scena
 	for _, rp := range sc.repos {
 		g := uint64(rp.idx)
 		rp.nameID, rp.urlID, rp.frID = 100+g, 300+g, 500+g
+		if v, ok := sc.ids[rp.name]; ok {
+			rp.nameID = v // same name, same identifier
+		}
 		sc.ids[rp.name], sc.ids[rp.url], sc.ids[rp.frag] = rp.nameID, rp.urlID, rp.frID
 		for k, s := range rp.subs {
 			sc.ids[s.name], sc.ids[s.url], sc.ids[s.frag] = 2000+g*4+uint64(k), 3000+g*4+uint64(k), 4000+g*4+uint64(k)
@@ -291,7 +313,7 @@ func vfC23Atom(r *vfRand, repos []*vfC23Repo) vfC23Q {
 		}
 		return vfC23Q{&query.RepoIDs{Repos: bm}, func(rp *vfC23Repo, _ *vfC23Doc) bool { return bm.Contains(rp.id) }, fmt.Sprint("repoids:", l)}
 	case 5:
-		pat := r.Pick([]string{"t1-", "t2-", "t3-", pick.marker, "-r", "nomatch"})
+		pat := r.Pick([]string{"t1-", "t2-", "t3-", pick.marker, "-r", "nomatch", "shared", pick.name})
 		re := regexp.MustCompile(regexp.QuoteMeta(pat))
 		return vfC23Q{&query.Repo{Regexp: re}, func(rp *vfC23Repo, _ *vfC23Doc) bool { return strings.Contains(rp.name, pat) }, "repo:" + pat}
 	case 6:
@@ -310,7 +332,7 @@ func vfC23Atom(r *vfRand, repos []*vfC23Repo) vfC23Q {
 		return vfC23Q{&query.BranchesRepos{List: []query.BranchRepos{{Branch: "main", Repos: bm}}},
 			func(rp *vfC23Repo, _ *vfC23Doc) bool { return bm.Contains(rp.id) }, fmt.Sprint("branchesrepos:main:", l)}
 	case 8:
-		pat := r.Pick([]string{"t1-", "t2-", pick.marker})
+		pat := r.Pick([]string{"t1-", "t2-", pick.marker, "shared", pick.name})
 		re := regexp.MustCompile(regexp.QuoteMeta(pat))
 		return vfC23Q{&query.RepoRegexp{Regexp: re}, func(rp *vfC23Repo, _ *vfC23Doc) bool { return strings.Contains(rp.name, pat) }, "reporegexp:" + pat}
 	default:
@@ -397,6 +419,22 @@ func vfC23Leaks(val any, repos []*vfC23Repo, allowed func(*vfC23Repo) bool) []st
 					leaks["subrepo-template"] = true
 				default:
 					leaks["other-string"] = true
+				}
+			}
+		}
+		if rp.shared {
+			// a shared name is a leak only when no repository the caller may see carries it
+			own := false
+			for _, x := range repos {
+				if allowed(x) && x.name == rp.name {
+					own = true
+				}
+			}
+			if !own {
+				for _, s := range strs {
+					if s == rp.name {
+						leaks["name"] = true
+					}
 				}
 			}
 		}
@@ -494,7 +532,7 @@ func vfC23Run(t *testing.T, r *vfRand, n int, strict bool) {
 		replay := map[string]any{"seed": vfSeed(), "case": i, "strict": strict, "ctx": cx.name, "query": q.desc, "query_go": q.q.String()}
 		var rdesc []map[string]any
 		for _, rp := range sc.repos {
-			rdesc = append(rdesc, map[string]any{"name": rp.name, "tenant": rp.tenant, "id": rp.id, "tombstone": rp.tomb, "docs": len(rp.docs), "subrepos": len(rp.subs)})
+			rdesc = append(rdesc, map[string]any{"name": rp.name, "marker": rp.marker, "tenant": rp.tenant, "id": rp.id, "tombstone": rp.tomb, "docs": len(rp.docs), "subrepos": len(rp.subs)})
 		}
 		replay["shard"] = rdesc
 
@@ -589,7 +627,17 @@ func vfC23Run(t *testing.T, r *vfRand, n int, strict bool) {
 				foreign++
 			}
 		}
-		class := []string{sc.kind, "ctx=" + cx.name, fmt.Sprint("strict=", strict), fmt.Sprint("scan=", scan), "lsimp=" + lsimp,
+		dupForeign := false // a repository the caller may not see has the name of one it may see
+		for _, rp := range sc.repos {
+			if rp.shared && !allowed(rp) {
+				for _, x := range sc.repos {
+					if allowed(x) && x.name == rp.name {
+						dupForeign = true
+					}
+				}
+			}
+		}
+		class := []string{sc.kind, fmt.Sprint("same-name-foreign=", dupForeign), "ctx=" + cx.name, fmt.Sprint("strict=", strict), fmt.Sprint("scan=", scan), "lsimp=" + lsimp,
 			fmt.Sprint("files>0=", len(res.Files) > 0), fmt.Sprint("foreign>0=", foreign > 0)}
 		vfCase(coq, vfKey(nsc, cx.name, q.desc, fieldMap, strict), foreign > 0 && scan && len(sc.repos) > 1, class,
 			map[string]any{"ctx": cx.name, "query": q.desc, "shard": rdesc, "files": len(res.Files), "repourls": len(res.RepoURLs), "list": len(rl.Repos) + len(rl.ReposMap)})
